@@ -165,6 +165,24 @@ func c12(ctx *Ctx) (*Outcome, error) {
 				}
 			}
 		}
+		if len(big.Types) == 1 && big.Types[0] == "object" {
+			// object defaults with nested objects of many members (inline and behind a reference): the literal that is
+			// written for them lists the members in an order that is a function of the document
+			mkLimits := func() *sg.Schema {
+				l := &sg.Schema{Types: []string{"object"}}
+				for _, k := range []string{"burst", "rate", "window", "quota", "backlog", "idle"} {
+					l.Props = append(l.Props, sg.Prop{Name: k, S: &sg.Schema{Types: []string{"integer"}}})
+				}
+				return l
+			}
+			limitsDefault := jsonx.Obj{{K: "idle", V: jsonx.N(6)}, {K: "burst", V: jsonx.N(1)}, {K: "quota", V: jsonx.N(4)}, {K: "rate", V: jsonx.N(2)}, {K: "backlog", V: jsonx.N(5)}, {K: "window", V: jsonx.N(3)}}
+			listener := &sg.Schema{Types: []string{"object"}, Props: []sg.Prop{{Name: "host", S: &sg.Schema{Types: []string{"string"}}}, {Name: "port", S: &sg.Schema{Types: []string{"integer"}}}, {Name: "limits", S: mkLimits()},
+				{Name: "peer", S: &sg.Schema{Types: []string{"object"}, Props: []sg.Prop{{Name: "limits", S: mkLimits()}, {Name: "name", S: &sg.Schema{Types: []string{"string"}}}}}}}}
+			def := jsonx.Obj{{K: "port", V: jsonx.N(80)}, {K: "limits", V: limitsDefault}, {K: "host", V: "h"}, {K: "peer", V: jsonx.Obj{{K: "name", V: "p"}, {K: "limits", V: limitsDefault}}}}
+			big.Defs = append(big.Defs, sg.Prop{Name: "DetListener", S: listener})
+			big.Props = append(big.Props, sg.Prop{Name: "detListener", S: &sg.Schema{Ref: "#/$defs/DetListener", Target: listener, Default: def, HasDefault: true}},
+				sg.Prop{Name: "detLimits", S: func() *sg.Schema { l := mkLimits(); l.Default, l.HasDefault = limitsDefault, true; return l }()})
+		}
 		if (i%4 == 1 || i%4 == 3) && (big.DefsKey == "" || big.DefsKey == "$defs") {
 			// (only where the generated definitions are written under $defs: the same key twice is outside what is asserted)
 			// a half-migrated document: `definitions` next to `$defs`, with entries of the same names and other content,
